@@ -235,6 +235,9 @@ fn gen_long_c09<M: Machine>(seed: u64, run: u64) -> Trace {
 fn gen_fault<M: Machine>(property: &str, seed: u64, run: u64, mode: faulty::Mode) -> Trace {
     faulty::generate::<M>(property, seed, run, mode)
 }
+fn gen_fault_long<M: Machine>(property: &str, seed: u64, run: u64) -> Trace {
+    faulty::generate_long_fault::<M>(property, seed, run)
+}
 fn enum_nonpos<M: Machine>(seed: u64, max_len: usize) -> Vec<Trace> {
     faulty::enumerate_nonpositive::<M>(seed, max_len)
 }
@@ -602,8 +605,17 @@ fn run_c11(ctx: &Ctx) -> i32 {
     let b2 = fault_batch("C11", &C09_MACHINES, n, faulty::Mode::Totality, ctx.seed, "seeded fault histories on long-lived states (corrupt / early EOF / desync / duplicate, then merges, forks, queries)");
     let rule = "one evaluation = one fault case (an entry point fed a stream carrying one fault at one position, with one confidence) or one seeded fault history on a long-lived state; the oracle classifies the actual input and demands: no panic except the documented ones, no Ok with a NaN or inverted bound, the documented error variant (with payload when a single class is present); distinct = distinct (entry, type, lengths, fault, position, confidence, style) tuples resp. event-shape sequences; non-trivial = a fault is present";
     let assumptions = ["documented variants are taken from the rustdoc of each entry point (TooFewSamples, InvalidInputData, NonPositiveValue, InvalidSuccesses, TooFewSuccesses, TooFewFailures, InvalidQuantile, DifferentSampleSizes)", "degenerate but valid data (constant, overflowing, underflowing) may yield any Err or a valid Ok", "confidence levels are drawn from [0.001, 0.9999] through the checked constructors"];
-    let new = report_all(ctx, &[&b1, &b2]);
-    write_partial(ctx, "fault_enumeration", &[&b1, &b2], new, rule, &assumptions, json!({"enumerated_cases": n_cases}), Some("entry point x fault kind x position x confidence kind for streams of length <= 6: exhaustive"));
+    // (3) one corrupt record at the first / a middle / the last position of a long stream
+    let n_long: u64 = if thorough { 20 } else { 2 };
+    let nm = C09_MACHINES.len() as u64;
+    let seed = ctx.seed;
+    let b3: Batch<Art> = runner::run_batch("long streams (6*10^4 .. 2.5*10^5 records) carrying one fault", n_long * nm, false, move |j, stats| {
+        let m = C09_MACHINES[(j % nm) as usize];
+        let tr: Trace = dispatch_machine!(m, gen_fault_long, "C11", seed, j / nm);
+        trace_job(tr, (j % nm) as u32, stats, j == 0)
+    });
+    let new = report_all(ctx, &[&b1, &b2, &b3]);
+    write_partial(ctx, "fault_enumeration", &[&b1, &b2, &b3], new, rule, &assumptions, json!({"enumerated_cases": n_cases}), Some("entry point x fault kind x position x confidence kind for streams of length <= 6: exhaustive"));
     if new > 0 {
         1
     } else {
